@@ -134,7 +134,7 @@ def new_reader():
     return conn, delivered
 
 
-def feed_real(conn, chunk: bytes, budget: int = 40000):
+def feed_real(conn, chunk: bytes, budget: int = 40000, alarm_s: float = 2.0):
     """Feed one chunk through the real work_read_queue; returns 'ok' | 'spin'."""
     from diameter.node import peer as peer_mod
     th = conn._read_thread
@@ -150,7 +150,7 @@ def feed_real(conn, chunk: bytes, budget: int = 40000):
     def on_alarm(signum, frame):
         raise Livelock()
     old = signal.signal(signal.SIGALRM, on_alarm)
-    signal.setitimer(signal.ITIMER_REAL, 2.0)
+    signal.setitimer(signal.ITIMER_REAL, alarm_s)
     try:
         conn.work_read_queue(th)
         return "ok"
@@ -161,12 +161,12 @@ def feed_real(conn, chunk: bytes, budget: int = 40000):
         signal.signal(signal.SIGALRM, old)
 
 
-def frame_real(chunks: list[bytes]) -> str:
+def frame_real(chunks: list[bytes], alarm_s: float = 2.0) -> str:
     from diameter.node import peer as peer_mod
     conn, delivered = new_reader()
     spin = False
     for c in chunks:
-        r = feed_real(conn, c)
+        r = feed_real(conn, c, alarm_s=alarm_s)
         if r == "spin":
             spin = True
             break
@@ -175,4 +175,7 @@ def frame_real(chunks: list[bytes]) -> str:
     dl = ",".join(f"{m.header.command_code}:{m.header.hop_by_hop_identifier}:{m.header.end_to_end_identifier}:{m.header.length}"
                   for m in delivered)
     closed = 1 if conn.state == peer_mod.PEER_CLOSED else 0
+    if spin and alarm_s < 10:
+        # a reader that did not return within the alarm is tried again from scratch with a five times longer one
+        return frame_real(chunks, alarm_s=10.0)
     return f"D[{dl}] closed={closed} spin={1 if spin else 0} resid={len(conn._read_buffer)}"
